@@ -186,9 +186,13 @@ def run(R, env):
                     den = agg_field(val, "liquid_stake_token_denom") if val[0] == "agg" else None
                     fargs = []
                     if den is not None:
-                        for s_ in subterms(den):
-                            if s_[0] == "call" and s_[1].endswith("Argument::new_display"):
-                                fargs.append(s_[2][0])
+                        from engine.analysis import forms as _forms19b
+                        for f_ in [den] + list(_forms19b(prog, den, 2)):
+                            for s_ in subterms(f_):
+                                if s_[0] == "call" and s_[1].endswith("Argument::new_display"):
+                                    fargs.append(s_[2][0])
+                            if fargs:
+                                break
                     # (the template may sit in a helper / method that instantiate calls, e.g. InstantiateMsg::validate)
                     rfiles = set(prog.bodies[k_].span["file"] for k_ in reachable_bodies(prog, [ih.body.key]) if k_ in prog.bodies and prog.bodies[k_].crate == CRATE)
                     fl = [f for f in prog.formats if f["crate"] == CRATE and f["file"] in rfiles and f["pieces"] and f["pieces"][0].get("lit", "").startswith("factory/")]
